@@ -79,6 +79,12 @@ impl TaskWake {
         (f, w)
     }
 
+    /// The waker of the most recent poll once more (`will_wake` of the two is true): a task that is
+    /// polled again, spuriously, by an executor that keeps its waker.
+    pub fn same(&self) -> Option<(Arc<WakeFlag>, Waker)> {
+        self.current.as_ref().map(|f| (f.clone(), waker(f)))
+    }
+
     /// Has the waker of the most recent poll fired?
     pub fn woken(&self) -> bool {
         self.current.as_ref().map_or(false, |f| f.fired())
